@@ -389,7 +389,8 @@ class DerStream(runner.Stream):
         if ans.startswith("chunked-differs"):
             # harness/src/der.rs reads everything twice: from the contiguous slice and from a source that
             # hands out one octet per `read` call
-            return "the reader's answer depends on how the std::io::Read source chunks the octets: " + ans[:200]
+            return ("the answer depends on how the std::io::Read source / Write sink chunks the octets (slice, one octet per call, "
+                    "one octet per call with ErrorKind::Interrupted in between; Vec, one-octet-per-call sink): " + ans[:200])
         a = ans.split(" ")
         if op == "ginfo":
             (k, n), count = GENERATED[t[2]]
@@ -550,7 +551,7 @@ class Spec(runner.Spec):
     streams = [DerStream()]
     assumptions = [
         "dev profile (overflow checks, debug assertions); the release profile is not modelled",
-        "the model's source is a byte list: a read either delivers all requested bytes or fails with UnexpectedEof; the harness reads every input twice, from an in-memory slice (`&[u8]`) and from a `std::io::Read` source that hands out one octet per call, and reports `chunked-differs` when the two answers differ; the writer's sink is a `Vec<u8>` and never fails",
+        "the model's source is a byte list: a read either delivers all requested bytes or fails with UnexpectedEof; the harness reads every input three times — from an in-memory slice (`&[u8]`), from a `std::io::Read` source that hands out one octet per call, and from one that also reports ErrorKind::Interrupted before every octet — and writes twice — to a `Vec<u8>` and to a sink that takes one octet per call; `chunked-differs` when the answers / octets differ",
         "Rust semantics of the mirrored functions is tied to the Lean mirror only by differential execution (stream `der`)",
         "an enumeration's `from_choice_index(i)` is `Some` exactly for `i < VARIANT_COUNT` and `to_choice_index` is its inverse (what the generator emits; checked for three generated enumerations)",
         "tag numbers >= 64 are outside the property (the writer ORs `number as u8` into the identifier octet); theorems state the exact domain `number < 64`",
